@@ -9,13 +9,15 @@ import gen_expr as ge
 GEN_DIR = os.path.join(cl.BUILD, "gen_expr")
 LIMBS = (16, 32, 64)
 BACKENDS = ("plain", "serial", "sse", "avx2")
-MAX_CACHE = 70
+MAX_CACHE = 160     # binaries kept besides the ones of the current run
 
 
 def base_flags(backend, sanitize=None, syntax_only=False):
     flags = ["-std=gnu++17", "-O1", "-g", "-fno-access-control", "-DNFLLIB_VERIF", "-DBACKEND_NAME=\"%s\"" % backend] + cl.BACKENDS[backend]
     if sanitize:
         flags += ["-fsanitize=" + sanitize, "-fno-sanitize-recover=all", "-fno-omit-frame-pointer"]
+    else:
+        flags.remove("-g")          # debug information is only of use in sanitizer reports; it costs 15 % of the compile time
     inc = ["-I" + os.path.join(cl.REPO, "include"), "-I" + os.path.join(cl.REPO, "include", "nfl"),
            "-I" + os.path.join(cl.REPO, "include", "nfl", "prng"), "-I" + cl.HARNESS]
     if syntax_only:
@@ -30,8 +32,9 @@ def rt_hash():
     return h.hexdigest()
 
 
-def prune_cache():
-    files = sorted(glob.glob(os.path.join(cl.BUILD, "exprbin_*")), key=os.path.getmtime)
+def prune_cache(keep=()):
+    keep = set(keep)
+    files = [f for f in sorted(glob.glob(os.path.join(cl.BUILD, "exprbin_*")), key=os.path.getmtime) if f not in keep]
     for f in files[:-MAX_CACHE]:
         try:
             os.remove(f)
@@ -70,7 +73,12 @@ def blame(stderr, src_name, spans):
     return bad
 
 
-def configs(tier):
+PARTS_PER_TU = {"c07": 6, "c08": 3}      # additional degrees batched per translation unit (one Env instantiation each)
+
+
+def configs(tier, kind="c08"):
+    """base translation units (degree 16, full case list; thorough: degree 32 and 3 moduli too) and, per limb x backend,
+    translation units with the additional degrees of gen_expr.degree_plan (reduced case list each)"""
     out = []
     for w in LIMBS:
         for be in BACKENDS:
@@ -79,14 +87,26 @@ def configs(tier):
                 out.append(dict(w=w, be=be, deg=32, nmod=1, tu=1))
                 if be in ("sse", "avx2"):
                     out.append(dict(w=w, be=be, deg=16, nmod=(2 if w == 16 else 3), tu=2))
+            plan = ge.degree_plan(w, ge.BE_CODE[be], tier)
+            # interleave so that every translation unit gets small and large degrees (similar compile and run times)
+            ntu = -(-len(plan) // PARTS_PER_TU[kind])
+            for x in range(ntu):
+                parts = [dict(deg=d, nmod=m, profile="light") for (d, m) in plan[x::ntu]]
+                out.append(dict(w=w, be=be, deg=0, nmod=0, tu=10 + x, parts=parts))
     return out
+
+
+def cf_name(kind, cf):
+    if cf.get("parts"):
+        return "%s_w%d_%s_x%d" % (kind, cf["w"], cf["be"], cf["tu"] - 10)
+    return "%s_w%d_%s_d%d_m%d_t%d" % (kind, cf["w"], cf["be"], cf["deg"], cf["nmod"], cf["tu"])
 
 
 def emit(kind, seed, cf, tier, drop=()):
     if kind == "c07":
-        src, spans, cases = ge.emit_c07(seed, cf["w"], cf["be"], cf["deg"], cf["nmod"], tier, cf["tu"])
+        src, spans, cases = ge.emit_c07(seed, cf["w"], cf["be"], cf["deg"], cf["nmod"], tier, cf["tu"], parts=cf.get("parts"))
     else:
-        src, spans, cases = ge.emit_c08(seed, cf["w"], cf["be"], cf["deg"], cf["nmod"], tier)
+        src, spans, cases = ge.emit_c08(seed, cf["w"], cf["be"], cf["deg"], cf["nmod"], tier, parts=cf.get("parts"))
     if drop:
         # remove the calls of the dropped cases (their bodies stay out of the way: delete the function bodies too)
         lines = src.split("\n")
@@ -106,7 +126,7 @@ def run_probes(ctx, seed, tier, cov):
     jobs = []
     for w in LIMBS:
         for be in ("serial", "sse", "avx2"):
-            for k, (pred, why, text, source) in enumerate(ge.probes(seed, w, be, 16, n_acc, n_rej)):
+            for k, (pred, why, text, source) in enumerate(ge.probes(seed, w, be, 16, n_acc, n_rej) + ge.degree_probes(seed, w, be, tier)):
                 jobs.append((w, be, k, pred, why, text, source))
     os.makedirs(GEN_DIR, exist_ok=True)
 
@@ -127,18 +147,19 @@ def run_probes(ctx, seed, tier, cov):
                 disagree += 1
                 ctx["problems"].append({"kind": "predictor", "what": "compile predictor wrong for limb %d backend %s: %s predicted %s (%s), compiler says %s" % (
                     w, be, text.replace("e.", ""), "accepted" if pred else "rejected", why, "accepted" if ok else "rejected"), "detail": err})
-    cov["compile_probes"] = {"agree": agree, "disagree": disagree, "accepted_probes_per_config": n_acc, "rejected_probes_per_config": n_rej}
+    cov["compile_probes"] = {"agree": agree, "disagree": disagree, "accepted_probes_per_config": n_acc, "rejected_probes_per_config": n_rej,
+                             "degree_probes": sum(len(ge.degree_probes(seed, w, be, tier)) for w in LIMBS for be in ("serial", "sse", "avx2"))}
 
 
 def expr_streams(ctx, res, kind, seed=None, tier=None, probes=True):
     seed = ctx["seed"] if seed is None else seed
     tier = ctx["tier"] if tier is None else tier
     cov = {"configs": [], "generator": "tools/gen_expr.py"}
-    cfs = configs(tier)
-    sanit = lambda cf: ("address,undefined" if (tier == "thorough" and cf["tu"] == 0 and (cf["w"], cf["be"]) in ((16, "sse"), (32, "avx2"), (64, "serial"))) else None)
+    cfs = configs(tier, kind)
+    sanit = lambda cf: ("address,undefined" if (tier == "thorough" and cf["tu"] in (0, 10) and (cf["w"], cf["be"]) in ((16, "sse"), (32, "avx2"), (64, "serial"))) else None)
 
     def build(cf):
-        name = "%s_w%d_%s_d%d_m%d_t%d" % (kind, cf["w"], cf["be"], cf["deg"], cf["nmod"], cf["tu"])
+        name = cf_name(kind, cf)
         dropped = set()
         for attempt in range(6):
             src, spans, cases = emit(kind, seed, cf, tier, dropped)
@@ -153,10 +174,14 @@ def expr_streams(ctx, res, kind, seed=None, tier=None, probes=True):
         return cf, name, None, dropped, len(cases), last_err, False
 
     t0 = time.time()
-    with ThreadPoolExecutor(max_workers=min(12, os.cpu_count() or 4)) as ex:
-        built = list(ex.map(build, cfs))
+    # the translation units with the additional degrees take longest: start them first
+    order = sorted(range(len(cfs)), key=lambda i: (0 if cfs[i].get("parts") else 1, i))
+    with ThreadPoolExecutor(max_workers=min(16, os.cpu_count() or 4)) as ex:
+        done = dict(zip(order, ex.map(build, [cfs[i] for i in order])))
+    built = [done[i] for i in range(len(cfs))]
     cov["compile_wall_s"] = round(time.time() - t0, 1)
-    prune_cache()
+    prune_cache(keep=[b[2] for b in built if b[2]])
+    jobs = []
     for cf, name, exe, dropped, ncases, err, cached in built:
         if dropped:
             ctx["problems"].append({"kind": "predictor", "what": "%s: %d generated case(s) predicted to compile were rejected by the compiler: %s" % (
@@ -167,11 +192,73 @@ def expr_streams(ctx, res, kind, seed=None, tier=None, probes=True):
         env = {"VERIF_SEED": str(seed), "VERIF_TIER": tier}
         if tier == "quick" and kind == "c08":
             env["VERIF_EXPR_POS"] = "12"
-        cl.run_stream(res, "%s/%s" % (kind, name), exe, env=env)
-        cov["configs"].append({"name": name, "cases": ncases - len(dropped), "cached": cached})
+        jobs.append(dict(label="%s/%s" % (kind, name), exe=exe, env=env))
+        c = {"name": name, "cases": ncases - len(dropped), "cached": cached}
+        if cf.get("parts"):
+            c["degrees_x_moduli"] = ["%dx%d" % (pt["deg"], pt["nmod"]) for pt in cf["parts"]]
+        cov["configs"].append(c)
+    t0 = time.time()
+    cl.run_streams_parallel(res, jobs, workers=min(8, os.cpu_count() or 4))
+    cov["streams_wall_s"] = round(time.time() - t0, 1)
+    cov["degrees"] = {"%d/%s" % (w, be): [16] + [d for d, _ in ge.degree_plan(w, ge.BE_CODE[be], tier)] for w in LIMBS for be in BACKENDS}
+    expand_sweeps(res)
     if probes:
         run_probes(ctx, seed, tier, cov)
     return cov
+
+
+def sweep_lines(line):
+    """the single-evaluation lines (`ebool` / `ppeq` / `ppne` / `pbool`) a `bsweep` line stands for, with the answers the
+    implementation gave (harness/expr_rt.hpp `sweep`)"""
+    lhs, rhs = line.split(" =>")
+    a = lhs.split()
+    w, be, nmod, deg, fam, pat, t, L = map(int, a[1:9])
+    tree = a[9:9 + L]
+    nh = int(a[9 + L])
+    n = nmod * deg
+    o = 10 + L
+    words, alt = a[o:o + nh * n], a[o + nh * n:o + nh * n + n]
+    pos = list(map(int, a[o + nh * n + n + 1:]))
+    r = rhs.split()
+    mode, bits = r[0], r[1:]
+    head = "%d %d %d %d" % (w, be, nmod, deg)
+    out = []
+    for k, bit in zip(pos, bits):
+        row = words[t * n:(t + 1) * n]
+        if pat == 0:
+            row = row[:k] + [alt[k]] + row[k + 1:]
+        else:
+            row = alt[:k] + [row[k]] + alt[k + 1:]
+        ws = " ".join(words[:t * n] + row + words[(t + 1) * n:])
+        if fam == 0:
+            out.append("ebool %s 0 %d %s %d %s => %s %s" % (head, L, " ".join(tree), nh, ws, mode, bit))
+        elif fam == 1:
+            out.append("%s %s %s %s %d %s => %s" % ("ppeq" if tree[0] == "6" else "ppne", head, tree[2], tree[4], nh, ws, bit))
+        else:
+            out.append("pbool %s %s %d %s => %s" % (head, tree[1], nh, ws, bit))
+    return out
+
+
+def expand_sweeps(res, max_sweeps=2, per_sweep=3):
+    """Reporting only.  Single-evaluation lines that fail are put in front of failing batch lines (they are the readable
+    failing inputs; the batch lines stay in the list for the replay).  For a stream in which only batch lines fail, the
+    evaluations of the first failing batches are fed to the driver one by one (same implementation answers): the failing
+    ones come back as ordinary SPECFAIL lines on `ebool` / `ppeq` / `ppne` / `pbool`."""
+    is_batch = lambda f: f["line"].startswith("bsweep ")
+    direct_streams = set(f["stream"] for f in res.specfail if not is_batch(f))
+    singles, seen = [], 0
+    for f in list(res.specfail) + list(res.modeldiff):
+        if not is_batch(f) or f["stream"] in direct_streams or seen >= max_sweeps:
+            continue
+        seen += 1
+        try:
+            lines = sweep_lines(f["line"])
+        except Exception:               # a truncated line: the batch line itself stays the failing input
+            continue
+        r2 = cl.StreamResult()
+        cl.feed_driver(r2, f["stream"] + "/expanded", lines)
+        singles += [dict(x, note="one evaluation of a failing bsweep line of stream %s" % f["stream"]) for x in (r2.specfail + r2.modeldiff)[:per_sweep]]
+    res.specfail[:] = singles + [f for f in res.specfail if not is_batch(f)] + [f for f in res.specfail if is_batch(f)]
 
 
 def expr_search(ctx, res, problems, kind):
